@@ -576,7 +576,7 @@ func runIdxIntersect(c *core.Ctx) {
 	union := false
 	an.Region(find, nil, func(o an.Occ) {
 		mu, ok := o.In.(*ssa.MapUpdate)
-		if !ok || !isConstBool(mu.Value, true) {
+		if !ok || !(isConstBool(mu.Value, true) || isEmptyStruct(mu.Value.Type())) {
 			return
 		}
 		if strings.HasPrefix(o.Path(mu.Key), "rangekey(recv.idx[") {
